@@ -434,6 +434,7 @@ func cellIndex(c *mon.Case) {
 	reuseMode := r.Intn(3)
 	reused := s2.NewCellIndexContentsIterator(&idx)
 	reported := map[pair]bool{}
+	var starts []s2.CellID
 	nr := 0
 	for it.Begin(); !it.Done(); it.Next() {
 		nr++
@@ -447,6 +448,7 @@ func cellIndex(c *mon.Case) {
 			return
 		}
 		next = l
+		starts = append(starts, s)
 		// contents
 		want := map[pair]int{}
 		for _, p := range pairs {
@@ -516,6 +518,56 @@ func cellIndex(c *mon.Case) {
 	}
 	if next != end {
 		c.Violation("CellIndex/range-iterator/not-a-tiling/wrong-answer", fmt.Sprintf("ranges end at %x, the curve ends at %x", uint64(next), uint64(end)), det())
+	}
+	// one contents iterator, never cleared, over the ranges in an arbitrary order (a later range, an earlier
+	// one, one in between, ...): every pair covering a visited range is reported for it or was reported for a
+	// range visited before ("each result is reported at least once"), and nothing else is reported
+	if len(starts) > 2 && c.I%2 == 0 {
+		anyOrder := s2.NewCellIndexContentsIterator(&idx)
+		seen := map[pair]bool{}
+		it2 := s2.NewCellIndexRangeIterator(&idx)
+		order := r.Perm(len(starts))
+		if len(order) > 40 {
+			order = order[:40]
+		}
+		for _, oi := range order {
+			it2.Seek(starts[oi])
+			s, l := it2.StartID(), it2.LimitID()
+			if s != starts[oi] {
+				c.Violation("CellIndex/range-iterator/Seek/wrong-answer", fmt.Sprintf("Seek(%x) positions the iterator at the range starting at %x", uint64(starts[oi]), uint64(s)), det())
+				break
+			}
+			got := map[pair]bool{}
+			k := 0
+			for anyOrder.StartUnion(it2); !anyOrder.Done(); anyOrder.Next() {
+				got[pair{anyOrder.CellID(), anyOrder.Label()}] = true
+				if k++; k > len(pairs)+5 {
+					c.Violation("CellIndex/contents-iterator/reused/does-not-terminate/wrong-answer", "reused contents iterator yields more pairs than the index holds", det())
+					return
+				}
+			}
+			c.Count("cellindex.reused_ranges_any_order", 1)
+			bad := false
+			for _, p := range pairs {
+				covers := p.id.RangeMin() <= s && p.id.RangeMax().Next() >= l
+				if covers && !got[p] && !seen[p] {
+					c.Violation("CellIndex/contents/reused-any-order/missing-pair/wrong-answer", fmt.Sprintf("range [%x,%x): a contents iterator reused without Clear() over ranges in arbitrary order never reported %s:%d, neither for this range nor for one visited before", uint64(s), uint64(l), p.id.ToToken(), p.label), det())
+					bad = true
+					break
+				}
+				if !covers && got[p] {
+					c.Violation("CellIndex/contents/reused/reports-pair-not-covering-range/wrong-answer", fmt.Sprintf("range [%x,%x): reused contents iterator (arbitrary order) reports %s:%d which does not cover the range", uint64(s), uint64(l), p.id.ToToken(), p.label), det())
+					bad = true
+					break
+				}
+			}
+			if bad {
+				break
+			}
+			for p := range got {
+				seen[p] = true
+			}
+		}
 	}
 	c.Distinct(uint64(c.I))
 }
